@@ -208,10 +208,7 @@ def _run(ctx: Ctx, mod, replay):
 
 
 def _check_case(ctx, mod, case):
-	r = mod.check(ctx, case)
-	if isinstance(r, tuple):
-		return r
-	return r, []
+	return core.safe_check(mod.check, ctx, case)
 
 
 def _first_error(out: str) -> str:
